@@ -25,6 +25,10 @@ Operations
   br.clo[.pinned] <cfg: 3 bits> <ret> <prefixMl> <rw> <wrapOuterOk> <wrapBodyOk> <blockOk> <e>
         -> err | `<0|e|w|k> <e>`           `rewrite_closure`: branch, the printed body (empty statements dropped)
         cfg = forceMultilineBlocks style2024 insideMacro
+  br.arm.check[.pinned] <the arguments of br.arm> <real comma 0|1|-> <real body | ->      -> ok | model=<br.arm's answer>
+  br.clo.check[.pinned] <the arguments of br.clo> <real body | ->                        -> ok | model=<br.clo's answer>
+        the model's answer compared with what the real code printed (read back by the parser; `-` = an error), up to
+        empty statements and the braces inside nested closures
 ORACLE (judges the output of the real formatter)
   br.oracle.strip <e in> <e out>                              -> ok | bad                `stripDeep in = stripDeep out`
 -/
@@ -203,8 +207,60 @@ def cloOp (inner : Bool → Expr → Expr) (args : List String) : Option String 
     pure (encCloOut (rewriteClosureWith inner c o ret e))
   | _ => none
 
+/-- the printed body read back, compared with the model's up to the braces inside nested closures -/
+def sameTree (a b : Expr) : Bool := deep (dropEmpty a) == deep (dropEmpty b)
+
+def armCheck (wc : ArmCfg → Bool → Bool) (args : List String) : Option String :=
+  match args with
+  | [cfg, ctx, shapeOk, cond, orig, next, prefer, e, rc, rt] => do
+    let c ← decArmCfg cfg
+    let x ← decArmCtx ctx
+    let shapeOk ← decB shapeOk
+    let cond ← decB cond
+    let orig ← decRw orig
+    let next ← decB next
+    let prefer ← (if prefer == "-" then some false else decB prefer)
+    let e ← decExpr e
+    let o : ArmOrc := ⟨fun _ => cond, shapeOk, fun _ => orig, fun _ => next, fun _ => prefer⟩
+    let m := rewriteMatchBodyWith wc c x o e
+    let good ← (match m with
+      | none => some (rc == "-")
+      | some out => (do
+          if rc == "-" then pure false else
+          let rc ← decB rc
+          let rt ← decExpr rt
+          pure (rc == out.comma && sameTree out.tree rt)))
+    pure (if good then "ok" else s!"model={encArmOut m}")
+  | _ => none
+
+def cloCheck (inner : Bool → Expr → Expr) (args : List String) : Option String :=
+  match args with
+  | [cfg, ret, pml, rw, wo, wb, bo, e, rt] => do
+    let c ← decCloCfg cfg
+    let ret ← decB ret
+    let pml ← decB pml
+    let rw ← decRw1 rw
+    let wo ← decB wo
+    let wb ← decB wb
+    let bo ← decB bo
+    let e ← decExpr e
+    let o : CloOrc := ⟨pml, fun _ => rw, fun _ => wo, fun _ => wb, fun _ => bo⟩
+    let m := rewriteClosureWith inner c o ret e
+    let good ← (match m with
+      | none => some (rt == "-")
+      | some out => (do
+          if rt == "-" then pure false else
+          let rt ← decExpr rt
+          pure (sameTree out.tree rt)))
+    pure (if good then "ok" else s!"model={encCloOut m}")
+  | _ => none
+
 def handle (op : String) (args : List String) : Option String :=
   match op, args with
+  | "br.arm.check", args => some <| (armCheck wrapComma args).getD "?"
+  | "br.arm.check.pinned", args => some <| (armCheck wrapCommaPinned args).getD "?"
+  | "br.clo.check", args => some <| (cloCheck getInnerExpr args).getD "?"
+  | "br.clo.check.pinned", args => some <| (cloCheck getInnerExprPinned args).getD "?"
   | "br.flat", [fmb, im, cond, e] => some <| (do
       let fmb ← decB fmb
       let im ← decB im
